@@ -53,13 +53,15 @@ example : reduce64 18446744073709551615 12345678901234567 =
 returns, `d = gcd(n, p)` and, in the extended variant, `u*n + v*p = d` over the integers.
 No bound on the operands is needed: every arithmetic overflow is a panic site of the model, and the
 only silent wrap (`BInt::cast_from(q)` of a quotient `>= 2^(64N-1)`) can only happen when `y = 1`,
-where the wrapped row has value 0 and is never used. -/
+where the wrapped row has value 0 and is never used.
+(`gcdLoop N K` : `K` = width of the `BInt` cofactors, the real code is `K = N`, and
+`gcdInternal N ext n p = gcdLoop N N ext (gcdFuel N) (initSt n p)`.) -/
 theorem gcd_internal_spec (N : Nat) (hN : 0 < N) (ext : Bool) (fuel n p d : Nat) (u v : Int)
-    (h : gcdLoop N ext fuel (initSt n p) = some (d, u, v)) :
+    (h : gcdLoop N N ext fuel (initSt n p) = some (d, u, v)) :
     d = Nat.gcd n p ∧ (ext = true → u * n + v * p = d) :=
   gcdLoop_spec hN fuel _ d u v h (GInv_init ext n p)
 
-example : gcdLoop 16 true 10 (initSt 1234567890123456789012345678901234567890
+example : gcdLoop 16 16 true 10 (initSt 1234567890123456789012345678901234567890
       9876543210987654321098765432109876543210) = some (90000000009000000000900000000090, -8, 1) := by
   decide +kernel
 
@@ -72,7 +74,7 @@ product `x * y` by a factor `3/4` at least (quotient steps: `1/2`; Lehmer steps:
 `reduce64` on the top words). -/
 theorem gcd_terminates (N : Nat) (ext : Bool) (n p : Nat) (hn : n < 2 ^ (64 * N)) (hp : p < 2 ^ (64 * N))
     (f : Nat) (hf : 3 * (bits n + bits p) + 1 ≤ f) :
-    gcdLoop N ext f (initSt n p) = gcdLoop N ext (3 * (bits n + bits p) + 1) (initSt n p) ∧
+    gcdLoop N N ext f (initSt n p) = gcdLoop N N ext (3 * (bits n + bits p) + 1) (initSt n p) ∧
     3 * (bits n + bits p) + 1 ≤ gcdFuel N :=
   ⟨gcdLoop_fuel hn hp f hf, gcdFuel_ge hn hp⟩
 
@@ -113,6 +115,7 @@ example : mulword 2 5 2 (2 ^ 100) = some (5 * 2 ^ 100) ∧ mulword 2 (2 ^ 40) 2 
 fallback), operands with a small top word, the `mulword` index, the `BUint` addition in
 `dot_product`, every i64 operation and debug assertion of `reduce64`, `top64`, and fuel: `big_gcd`
 returns, and what it returns is the gcd.
+See `no_panic_ext_partial` for what is proved about the extended variant.
 **Missing** for the full statement (extended variant `gcd_internal::<N, true>` / `inv_mod` on
 operands of at most `64 N - 12` bits): a bound on the `BInt<N>` cofactors `biga..bigd` showing that
 their range checks cannot fail. The loop's `(x, y)` evolution, `reduce64`, `dot_product`, `mulword`
@@ -135,6 +138,27 @@ theorem no_panic_partial (N : Nat) (hN : 0 < N) (n p : Nat) (hn : n < 2 ^ (64 * 
 
 example : ((2 ^ 1018 + 12345) * 35 : Nat) < 2 ^ (64 * 16) ∧ bigGcd 16 ((2 ^ 1018 + 12345) * 35) ((2 ^ 1000 + 15) * 35) = some 35 := by
   decide +kernel
+
+/-- `no_panic` for the extended variant, partial. The model's loop takes the width `K` (in words)
+of the `BInt` cofactors as a separate parameter; the real code is the instance `K = N`
+(`gcdInternal N ext n p = gcdLoop N N ext (gcdFuel N) (initSt n p)`). **Proved**: for every pair of
+`BUint<N>` operands there is a cofactor width `K` for which `gcd_internal::<N, true>` returns (and
+returns the gcd with valid Bezout cofactors) — i.e. no panic site other than the `BInt` range checks
+on `biga..bigd` is reachable in the extended variant either: not the `mulword` index, not the
+`BUint` addition/multiplication/subtraction, not `top64`, not `reduce64`, not the i64
+`extended_gcd` of the final step, not lack of fuel; this includes operands within 36 bits of the
+type width. **Missing**: that `K = N` suffices for operands of at most `64 N - 12` bits (a bound
+`|cofactor| <= c * max(n, p)`); this is covered by the differential runs only. -/
+theorem no_panic_ext_partial (N : Nat) (hN : 0 < N) (n p : Nat) (hn : n < 2 ^ (64 * N)) (hp : p < 2 ^ (64 * N)) :
+    ∃ (K d : Nat) (u v : Int), gcdLoop N K true (gcdFuel N) (initSt n p) = some (d, u, v) ∧
+      d = Nat.gcd n p ∧ u * n + v * p = d := by
+  obtain ⟨K, ⟨d, u, v⟩, hr⟩ := gcdLoop_ext_exists hN (n := n) (p := p) hn hp
+  obtain ⟨h1, h2⟩ := gcdLoop_spec hN _ _ d u v hr (GInv_init true n p)
+  exact ⟨K, d, u, v, hr, h1, h2 rfl⟩
+
+example : gcdInternal 4 true 1234567890123456789012345678901234567890 987654321098765432109876543210 =
+    gcdLoop 4 4 true (gcdFuel 4) (initSt 1234567890123456789012345678901234567890 987654321098765432109876543210) :=
+  rfl
 
 /-- `inv_mod::<N>(n, p)` for every `n` and every modulus `p` (`p = 0` is refused by the assertion:
 the model returns `none`): whenever it returns,
